@@ -26,6 +26,12 @@ truthy_any = z3.Function("truthy", U, z3.BoolSort())
 
 
 # python-side descriptors carried in SV(FUNCT, ...)
+def core_NONE_U():
+    from . import core
+
+    return core.NONE_U
+
+
 class ModuleD:
     def __init__(self, name):
         self.name = name
@@ -563,8 +569,13 @@ class Executor:
                 e = z3.BoolVal(same)
             elif ka == "any" and kb == "any":
                 e = a.v == b.v
+            elif "any" in (ka, kb) and "none" in (ka, kb):
+                # an opaque value may well be None (None stored in an opaque slot is NONE_U)
+                e = (a.v if ka == "any" else b.v) == core_NONE_U()
+            elif "any" in (ka, kb) and ka != kb:
+                raise Unsupported(f"`is` between an opaque value and {b.ty if ka == 'any' else a.ty!r}")
             elif {ka, kb} <= {"none", "opt", "ref", "any"} or ka == kb == "bool":
-                e = eq_sv(a, b) if not ("any" in (ka, kb) and ka != kb) else z3.BoolVal(False)
+                e = eq_sv(a, b)
             elif "none" in (ka, kb):
                 e = z3.BoolVal(False)
             else:
